@@ -62,6 +62,12 @@ CHECKS.update({
          "bash 5.2.15 reference; temporary assignments are placed on reader functions only and readonly attacks run at top level only (what a callee that writes a temporarily assigned or readonly name leaves behind, and how far a failed assignment unwinds, differ between bash modes); -l with -u never combined", "DESIGN.md §3 C09"),
 })
 
+CHECKS.update({
+ "C10": ("grammar-based property testing of redirection lists and here-documents with an external descriptor probe, differential oracle vs bash 5.2.15",
+         "2.5k (quick) / 50k (thorough) programs of 2-5 commands, each one of 11 carrier kinds with 1-4 redirections over all operators and descriptors 0-9, with/without noclobber, probed from an external process inside and after the command; 2k/40k here-document cases (near-miss delimiter lines, tabs, expansions, delimiter forms, several per line, in substitutions/functions/loops/pipelines). stdout, tagged stderr lines, status and every file compared with bash. Exploration.",
+         "bash 5.2.15 reference; diagnostics are not compared, and a file that received a diagnostic (because stderr was redirected into it) is not compared; byte offsets are not compared; N>&N on a closed N and `<<-` bodies with backslash-continued lines are kept out", "DESIGN.md §3 C10"),
+})
+
 NOT_YET = {}
 
 def hooks():
